@@ -124,7 +124,7 @@ def render(case, src: str, partials: dict):
     env = envs.make_env({"mode": "strict", "extra": True, "twice": False}, partials)
     data = dict(case["globals"])
     data.update(one=["x"], gw="GW", gl=["L1", "L2"])
-    return oc.outcome_of(lambda: env.from_string(src).render(**data))
+    return oc.render(case, lambda: env.from_string(src), **data)
 
 
 def evaluate(case) -> Verdict:
@@ -134,7 +134,7 @@ def evaluate(case) -> Verdict:
         env = envs.make_env({"mode": "strict", "extra": True, "twice": False}, {"p": partial, "q": "Q", "outer": "{% render 'p' %}", "outer_for": "{% render 'p' for gl as it %}",
                                                                                  "xq": "{% extends 'xqbase' %}{% block b %}" + partial + "{% endblock %}", "xqbase": "Q[{% block b %}{% endblock %}]"})
         src = VIAS[case["via"]].replace("$BODY", partial)
-        o = oc.outcome_of(lambda: env.from_string(src).render(gw="GW", gl=["L1", "L2"], one=["x"]))
+        o = oc.render(case, lambda: env.from_string(src), gw="GW", gl=["L1", "L2"], one=["x"])
         if not (o[0] == "liquid" and o[1] == "DisabledTagError"):
             v.fail(f"include-allowed:{case['via']}", f"{src!r} with p={partial!r}: {oc.short(o)!r:.150}, expected DisabledTagError")
         v.nontrivial = True
@@ -208,7 +208,7 @@ def eval_visible(case) -> Verdict:
     env = envs.make_env({"mode": "strict", "extra": True, "twice": False}, {"p": body})
     data = {} if case["source"] == "assign" else {"gw": "GW", "gl": ["L1", "L2"]}
     data.update(case.get("globals") or {})
-    o = oc.outcome_of(lambda: env.from_string(src).render(**data))
+    o = oc.render(case, lambda: env.from_string(src), **data)
     if o[0] != "ok":
         v.fail(f"visible:raises:{mode}", f"{src!r} p={body!r} data={data!r} -> {oc.short(o)!r:.150}")
     elif o[1] != want:
